@@ -120,6 +120,25 @@ def mixed123(cx=0, cy=0, s=1):
     return [[a, b], [b, (cx + 6 * s, cy + 2 * s), c], [c, (cx + 2 * s, cy + 5 * s), (cx - 2 * s, cy + 3 * s), a]]
 
 
+def circle_arcs(cx, cy, r, n=16):
+    """n quadratic arcs approximating a circle (control points as exact Fractions of the float values)"""
+    import math
+
+    a = math.tau / n
+    h = math.tan(a / 2)
+    out = []
+    for k in range(n):
+        t0, t1 = k * a, (k + 1) * a
+        p0 = (cx + r * math.cos(t0), cy + r * math.sin(t0))
+        p2 = (cx + r * math.cos(t1), cy + r * math.sin(t1)) if k < n - 1 else (cx + r, cy + 0.0)
+        pm = (cx + r * (math.cos(t0) - h * math.sin(t0)), cy + r * (math.sin(t0) + h * math.cos(t0)))
+        out.append([tuple(map(Fraction, p0)), tuple(map(Fraction, pm)), tuple(map(Fraction, p2))])
+    # share junction values exactly
+    for k in range(n):
+        out[k][2] = out[(k + 1) % n][0]
+    return out
+
+
 def poly(*pts):
     pts = [(Fraction(x), Fraction(y)) for x, y in pts]
     return [[pts[i], pts[(i + 1) % len(pts)]] for i in range(len(pts))]
@@ -146,6 +165,7 @@ def curved_pairs(tier):
         ("blob2 nested", blob2(0, 0, 3), blob2(Fraction(1, 7), Fraction(1, 5), 1)),
         ("blob2 disjoint", blob2(), blob2(7, 1, 2)),
         ("mixed x blob2", mixed123(), blob2(3, 1, 2)),
+        ("circle r=1 x circle r=3", circle_arcs(0, 0, 1.0), circle_arcs(3.2, 0.3, 3.0)),
     ]
     if tier != "quick":
         out += [("blob3 x blob3 4 crossings", blob3(0, 0, 3), [[(x * Fraction(7, 4), y * Fraction(4, 7) * 3 / 3) for x, y in seg] for seg in blob3(0, 0, 3)]),
